@@ -200,6 +200,56 @@ def d3(cx: Cx, ob: Ob) -> None:
     check_tails(cx, ob, TARGETS)
     flags_only_report(cx, ob)
     delegated_echo(cx, ob)
+    strict_only_failure(cx, ob)
+
+
+def strict_only_failure(cx: Cx, ob: Ob) -> None:
+    """``strict`` selects how a failure is REPORTED, not what fails: a ``raise`` taken only under strict=True must
+    sit where the default mode answers None.  If the tests on the way to it (other than the flags) are all
+    compatible with a default-mode path that returns a VALUE, the same input converts by default and raises under
+    strict - and symmetrically for a value computed only when strict is off."""
+    from ..rules import guard_atoms
+
+    for name in TARGETS:
+        fn = cx.fn(f"{CONV}.{name}", ob.id)
+        if fn.param("strict") is None:
+            continue
+        s = cx.summary(fn, ob.id, full=True)
+        outs = []
+        for o, ctx in s.outcomes():
+            if ctx.loops:
+                continue
+            atoms = guard_atoms([g for g in ctx.guards if g.kind == "guard"])
+            flags = {a[1]: pol for a, pol in atoms if op(a) == "param" and a[1] in FLAGS}
+            rest = {a: pol for a, pol in atoms if not (op(a) == "param" and a[1] in FLAGS)}
+            outs.append((o, ctx, flags, rest))
+
+        def compatible(r1, r2) -> bool:
+            return all(r2.get(a, pol) == pol for a, pol in r1.items())
+
+        for o, ctx, flags, rest in outs:
+            if o is None or o[0] != "raise" or flags.get("strict") is not True or (len(o) > 3 and o[3]):
+                continue
+            if any(g.kind == "except" for g in ctx.path.events):
+                continue  # the failure was found by the lookup raising: a test the value path passed
+            for o2, ctx2, flags2, rest2 in outs:
+                if flags2.get("strict") is True or flags2.get("passthrough") is True:
+                    continue
+                val = NONE if o2 is None else o2[1] if o2[0] == "return" else None
+                if val is None or _kind(fn, val) != "VALUE":
+                    continue
+                # the default path must not have taken a decision the raising path contradicts, and must be a path
+                # that exists beside it (shares its last non-flag test or has none after it)
+                if compatible(rest, rest2) and compatible(rest2, rest) and set(rest2) <= set(rest):
+                    extra = [a for a in rest if a not in rest2]
+                    ob.violate(
+                        fn.qualname,
+                        where(fn, o[2]),
+                        f"{name} raises under strict=True after a test the default mode never makes (`{show(extra[0])[:60] if extra else 'none'}`) where the default call returns a value (line {o2[2] if o2 else '?'}): strict changes WHAT converts, not how failure is reported",
+                        witness="a CURIE whose identifier does not fit the record's pattern: parse_curie(c) is a reference, parse_curie(c, strict=True) raises",
+                        detail="strict-raises-on-success",
+                    )
+                    break
 
 
 def delegated_echo(cx: Cx, ob: Ob) -> None:
